@@ -646,11 +646,101 @@ def hook_closes_again_phase(ctx):
                               what="the disconnect hook called close(): the side did not yet report closed while its hook ran, and the cleanup ran again")
 
 
+def serve_all_other_failure_phase(ctx):
+    """a failure that is NOT an end-of-stream, met at a transport call while a side is inside serve_all() (an I/O error of poll: EIO, EBADF;
+    any exception other than EOFError out of serve): serve() itself closes only on EOFError, so what serve_all does on its way out decides
+    whether the side ends closed and clean (seed C11-r10m1: `finally: self.close()` replaced by a plain statement after the try)."""
+    import errno, gc, socket, threading, weakref
+    import rpyc
+    from rpyc.core.channel import Channel
+    from rpyc.core.stream import SocketStream
+
+    class Lent(object):
+        def exposed_hello(self):
+            return "hello"
+
+    for errn, errname in ((errno.EIO, "EIO"), (errno.EBADF, "EBADF"), (None, "RuntimeError")):
+        case = {"serve_all": "poll raises %s once, after one more answered request" % errname}
+        ctx.case(("serve_all-other-failure", errname), nontrivial=True, sample=case)
+        ctx.count("phase:serve_all-other-failure")
+
+        class Svc(rpyc.Service):
+            def __init__(self):
+                self.disconnects = 0
+
+            def on_disconnect(self, conn):
+                self.disconnects += 1
+
+            def exposed_echo(self, x):
+                return x
+
+            def exposed_lend(self):
+                o = Lent()
+                self.lent_ref = weakref.ref(o)
+                return o
+
+        class FaultyPoll(SocketStream):
+            __slots__ = ("armed", "fired")
+
+            def poll(self, timeout):
+                if getattr(self, "armed", False) and not getattr(self, "fired", False):
+                    self.fired = True
+                    raise (OSError(errn, "injected failure at poll()") if errn is not None else RuntimeError("injected failure at poll()"))
+                return SocketStream.poll(self, timeout)
+        a, b = socket.socketpair()
+        svc = Svc()
+        st = FaultyPoll(a)
+        st.armed = st.fired = False
+        srv = svc._connect(Channel(st), {})
+        t = threading.Thread(target=lambda: _swallow(srv.serve_all), daemon=True)
+        t.start()
+        cli = None
+        try:
+            with C.time_limit(60):
+                cli = rpyc.connect_stream(SocketStream(b), config={"sync_request_timeout": 5})
+                lent = cli.root.lend()
+                lent.hello()
+                echo = cli.root.echo
+                st.armed = True
+                try:
+                    echo(42)            # (the failure may strike before or after this request is served: either way the side must end clean)
+                except EOFError:
+                    pass
+                t.join(20)
+                del lent
+                gc.collect()
+                obs = {"serving thread ended": not t.is_alive(), "closed": bool(srv.closed), "disconnect hook runs": svc.disconnects,
+                       "objects still held for the peer": len(srv._local_objects._dict) if hasattr(srv._local_objects, "_dict") else None,
+                       "lent object alive": svc.lent_ref() is not None}
+                if t.is_alive() or not srv.closed or svc.disconnects != 1 or svc.lent_ref() is not None:
+                    ctx.violation("fault-inside-serve_all:not-closed-and-clean:%s" % errname, case, observed=obs,
+                                  expected={"serving thread ended": True, "closed": True, "disconnect hook runs": 1, "lent object alive": False},
+                                  what="a failure other than end-of-stream left serve_all() and the side is not closed and clean: its disconnect hook never ran, "
+                                       "it still holds what it lent, and its peer is not told (the peer's next request waits for its own timeout)")
+        except C.Hang:
+            ctx.violation("fault-inside-serve_all:hang:%s" % errname, case, observed="no end within 60 s", expected="the scenario ends", what="the scenario did not finish")
+        finally:
+            for c in (cli, srv):
+                try:
+                    if c is not None:
+                        c.close()
+                except Exception:           # noqa
+                    pass
+
+
+def _swallow(f):
+    try:
+        f()
+    except BaseException:                   # noqa: what a server's per-client thread would log
+        pass
+
+
 def run(ctx):
     model = C.Model("lifecycle"); model = model if model.available() else None
     facts = gen_facts()
     close_serving_phase(ctx, model, facts)
     hook_closes_again_phase(ctx)
+    serve_all_other_failure_phase(ctx)
     ctx.coverage_extra["rule"] = ("workloads {sync, async, nested callback, references both ways, a result of a class not seen before (nested class request while the reply is rebuilt), fire-and-forget callback} x close orders {AB, BA, A, B, none}; for each a clean run counts the "
                                   "(AB/BA: the second side closes after it has noticed; A|B, B|A: both close at once, each with the other's close request unread) - a clean run counts the "
                                   "transport calls of both sides, then one failure is injected at every individual poll/read/write call index of each side, and for writes additionally after "
